@@ -58,7 +58,7 @@ Fixpoint ex_next (evs : list N) (el : N) (i p : N) : option N :=
   | [] => None
   | e :: r => if (N.leb p i && N.eqb e el)%bool then Some (i + 1)%N else ex_next r el (i + 1)%N p
   end.
-Definition ex_val : valuation := mkVal (fun _ => ex_stream) (fun el p => ex_next ex_events el 0%N p).
+Definition ex_val : valuation := mkVal (fun _ => ex_stream) (fun el p => ex_next ex_events el 0%N p) 0.
 
 Lemma ex_val_ok : val_ok ex_val /\ ids_ok ex_val.
 Proof.
